@@ -232,3 +232,66 @@ def _sudf(sa, sb):
     if isinstance(sa, tuple) and isinstance(sb, tuple) and len(sa) == len(sb):
         return all(_sudf(x, y) for x, y in zip(sa, sb))
     return False
+
+
+# ---- fail, repair in place, retry -------------------------------------------------------------------------
+
+class _Poison:
+    """a member no routine accepts"""
+    def __repr__(self):
+        return "<poison>"
+
+
+def settable_positions(x, acc=None, _depth=0, _seen=None):
+    """(container, key, kind) for every position of x that can be overwritten in place and restored: list indices, dict
+    values, attributes of instances that allow assignment. Positions directly at the root are included; x itself is not."""
+    if acc is None:
+        acc, _seen = [], set()
+    if _depth > 60 or id(x) in _seen or len(acc) > 400:
+        return acc
+    _seen.add(id(x))
+    if isinstance(x, list):
+        for i, v in enumerate(x):
+            acc.append((x, i, "item"))
+            settable_positions(v, acc, _depth + 1, _seen)
+    elif isinstance(x, dict):
+        for k, v in x.items():
+            acc.append((x, k, "item"))
+            settable_positions(v, acc, _depth + 1, _seen)
+    elif isinstance(x, (tuple, set, frozenset, collections.deque)):
+        for v in x:
+            settable_positions(v, acc, _depth + 1, _seen)
+    elif isinstance(x, (str, bytes, int, float, type(None), type, types.ModuleType, types.FunctionType)):
+        pass
+    else:
+        names = []
+        if dataclasses.is_dataclass(x):
+            if not x.__dataclass_params__.frozen:
+                names = [f.name for f in dataclasses.fields(x)]
+        elif hasattr(x, "__dict__"):
+            names = list(vars(x))
+        else:
+            names = [s for c in type(x).__mro__ for s in c.__dict__.get("__slots__", ()) if hasattr(x, s)]
+        for n in names:
+            try:
+                v = getattr(x, n)
+            except Exception:
+                continue
+            acc.append((x, n, "attr"))
+            settable_positions(v, acc, _depth + 1, _seen)
+    return acc
+
+
+def poison_in_place(pos):
+    """overwrite one position with a member no routine accepts; returns the undo function (None if the position refuses)"""
+    c, k, kind = pos
+    try:
+        if kind == "item":
+            old = c[k]
+            c[k] = _Poison()
+            return lambda: c.__setitem__(k, old)
+        old = getattr(c, k)
+        setattr(c, k, _Poison())
+        return lambda: setattr(c, k, old)
+    except Exception:
+        return None
